@@ -58,6 +58,10 @@ def obligations(tier):
     for p in range(nshapes_c):
         obls.append(CH("comparison_normaliser_sound_s%d" % p, H, "comp_norm_sound", t, functions=FT + FC[1:4], stubs=[FMT, SEM], env={"VERIF_PART": str(p)},
                        bounds="AST shape %d of 8 with 3 atoms: symbolic int constants, negation flags, third operator; symbolic observed int" % p))
+    if tier == "thorough":
+        for p in range(6):
+            obls.append(CH("comparison_normaliser_sound4_s%d" % p, H, "comp_norm_sound4", 2400, functions=FT + FC[1:4], stubs=[FMT, SEM], env={"VERIF_PART": str(p)},
+                           bounds="4-atom AST shape %d of 6: symbolic int constants, negation flags; symbolic observed int" % p))
     obs_shapes = range(10) if tier == "thorough" else (3, 4)
     for p in obs_shapes:
         obls.append(CH("observation_normaliser_sound_s%d" % p, H, "obs_norm_sound", t * 2 if tier == "quick" else t, functions=FO + FT, stubs=[FMT, SEM],
